@@ -1,5 +1,181 @@
-import AlgoVerif.Model.C10
-/-! # C12 — property theorems (under construction) -/
-open AlgoVerif AlgoVerif.Gram AlgoVerif.C10
+import AlgoVerif.Proofs.C12Complete
+import AlgoVerif.Proofs.C12AST
+import AlgoVerif.Proofs.C12Term
+/-!
+# C12 — the predictive parser accepts exactly L(G) for LL(1) grammars
 
-theorem C12_placeholder : (union [1, 2] [2, 3] : List Nat) = [1, 2, 3] := by decide
+Model: `Model/C10.lean` (`parseLoop` = the stack/input loop of `predictive.Parse` after the D19 fix,
+`parseWith` = `Parse` including the `BuildParsingTable`/`Conflicts()` gate, `buildAST` = the callbacks of
+`ParseAndBuildAST`).  Spec: `Language` of `Model/GrammarCore.lean`, `Spec.LeftmostDerives`.
+
+All statements are for ALL grammars, ALL token strings and EVERY iteration order of the FIRST/FOLLOW
+computation the table is built from; `parseWith … = .ok (.done …)` already says that the table had no
+conflict (otherwise the answer is `.tableError`).  The hypothesis `analyse … = .ok an` (FIRST/FOLLOW
+returned) holds for every grammar that passes `Verify()` by `C10_fixpoints_terminate`.
+-/
+open AlgoVerif AlgoVerif.Gram AlgoVerif.C10
+set_option linter.unusedSectionVars false
+
+section
+variable {T N : Type} [DecidableEq T] [DecidableEq N]
+
+/-- **Soundness.**  If `Parse` returns no error, the productions it emitted are the leftmost derivation
+of the input from the start symbol (so the input is a sentence), the token callback saw exactly the
+input, and `ParseAndBuildAST` returns a complete tree whose leaves are the input tokens in order
+(yield = input).  No hypothesis on the grammar or on how FIRST/FOLLOW were obtained is needed. -/
+theorem C12_sound (g : Grammar T N) (an : Analysis T N) (fuel : Nat) (w : List T) (E : List (Event T N))
+    (h : parseWith g an fuel w = .ok (.done (.accept E))) :
+    Spec.LeftmostDerives g (eventProds E) [Sym.nonterm g.start] (w.map Sym.term) ∧
+    Language g w ∧
+    eventToks E = withPos w 0 ∧
+    ∃ t, buildAST E (Tree.node g.start none []) = .ok t ∧
+      t.frontier = (withPos w 0).map (fun x => (x.1, some x.2)) ∧ t.yield = w := by
+  unfold parseWith at h
+  dsimp only at h
+  split at h
+  · cases hl : parseLoop (cell g (firstStr an.first) an.follow) fuel [Sym.nonterm g.start] w 0 [] with
+    | ok r =>
+      rw [hl] at h
+      simp [Outcome.map] at h
+      subst h
+      obtain ⟨h1, h2⟩ := parse_sound (cell_tableSound g _ _) hl
+      exact ⟨h1, LeftmostDerives.toDerives h1, h2, ast_of_parse hl⟩
+    | panic => rw [hl] at h; simp [Outcome.map] at h
+    | diverge => rw [hl] at h; simp [Outcome.map] at h
+  · cases h
+
+/-- **A sentence followed by further tokens is rejected** (unless the longer string is a sentence
+itself): `Parse` never answers "no error" on a non-sentence.  (Before the D19 fix the Model accepted
+`a a` for `S → a`; see the `example` below for today's answer.) -/
+theorem C12_rejects_trailing (g : Grammar T N) (an : Analysis T N) (fuel : Nat) (u v : List T)
+    (_hu : Language g u) (hv : ¬ Language g (u ++ v)) (E : List (Event T N)) :
+    parseWith g an fuel (u ++ v) ≠ .ok (.done (.accept E)) :=
+  fun h => hv (C12_sound g an fuel (u ++ v) E h).2.1
+
+/-- the step that implements it: stack down to `$`, input not at its end ⇒ error -/
+theorem C12_stack_empty_input_left (M : N → Option T → List (GProd T N)) (fuel : Nat) (a : T)
+    (rest : List T) (pos : Nat) (evs : List (Event T N)) :
+    parseLoop M (fuel + 1) [] (a :: rest) pos evs = .ok (.reject .trailing) := rfl
+
+/-- **Completeness, with termination on sentences.**  For a valid grammar whose table (built from any
+fair run of FIRST/FOLLOW) is conflict-free, `Parse` accepts every sentence after finitely many steps. -/
+theorem C12_complete (g : Grammar T N) (hv : validB g = true) (hnd : g.prods.Nodup)
+    (o₁ o₂ : IterOrder T N) (h₁ : o₁.Fair) (h₂ : o₂.Fair) (an : Analysis T N)
+    (han : analyse g o₁ o₂ = .ok an) (hcf : conflicts g (firstStr an.first) an.follow = [])
+    (w : List T) (hw : Language g w) :
+    ∃ fuel₀ E, ∀ fuel, fuel ≥ fuel₀ → parseWith g an fuel w = .ok (.done (.accept E)) := by
+  obtain ⟨n, hn⟩ := Derives.toDerivesN hw
+  obtain ⟨fuel₀, E, hE⟩ := parseLoop_complete hv (cell_tableComplete hnd h₁ h₂ han hcf) n
+    [Sym.nonterm g.start] w [] 0 [] hn (by simpa using Derives.refl _)
+  refine ⟨fuel₀, E, ?_⟩
+  intro fuel hf
+  obtain ⟨k, rfl⟩ : ∃ k, fuel = fuel₀ + k := ⟨fuel - fuel₀, by omega⟩
+  unfold parseWith
+  simp [hcf, parseLoop_mono _ _ _ _ _ _ hE k, Outcome.map]
+
+/-- **Exactness** (what the parser decides, given enough steps): accepted iff sentence. -/
+theorem C12_accepts_iff_sentence (g : Grammar T N) (hv : validB g = true) (hnd : g.prods.Nodup)
+    (o₁ o₂ : IterOrder T N) (h₁ : o₁.Fair) (h₂ : o₂.Fair) (an : Analysis T N)
+    (han : analyse g o₁ o₂ = .ok an) (hcf : conflicts g (firstStr an.first) an.follow = [])
+    (w : List T) :
+    (∃ fuel E, parseWith g an fuel w = .ok (.done (.accept E))) ↔ Language g w := by
+  constructor
+  · rintro ⟨fuel, E, h⟩
+    exact (C12_sound g an fuel w E h).2.1
+  · intro hw
+    obtain ⟨fuel₀, E, h⟩ := C12_complete g hv hnd o₁ o₂ h₁ h₂ an han hcf w hw
+    exact ⟨fuel₀, E, h fuel₀ (Nat.le_refl _)⟩
+
+/-- **Termination on every token sequence.**  For a valid grammar and a table built from any fair run
+of FIRST/FOLLOW, `Parse` returns after finitely many steps on every input — sentence or not (if the
+table has a conflict it returns the table error at once).  Between two matches the lookahead is fixed:
+either the stack can still derive a string starting with it, and then the single production in the cell
+is the first step of every such derivation, which gets shorter; or it cannot, and then only productions
+with a vanishing body are used on the vanishing prefix of the stack, whose erasing derivation gets
+shorter (`Proofs/C12Term.lean`). -/
+theorem C12_terminates (g : Grammar T N) (hv : validB g = true) (hnd : g.prods.Nodup)
+    (o₁ o₂ : IterOrder T N) (h₁ : o₁.Fair) (h₂ : o₂.Fair) (an : Analysis T N)
+    (han : analyse g o₁ o₂ = .ok an) (w : List T) :
+    ∃ fuel₀ r, ∀ fuel, fuel ≥ fuel₀ → parseWith g an fuel w = .ok r := by
+  by_cases hcf : conflicts g (firstStr an.first) an.follow = []
+  · obtain ⟨fuel₀, r, hr⟩ := parse_terminates hv hnd h₁ h₂ han hcf w
+    refine ⟨fuel₀, .done r, ?_⟩
+    intro fuel hf
+    obtain ⟨k, rfl⟩ : ∃ k, fuel = fuel₀ + k := ⟨fuel - fuel₀, by omega⟩
+    unfold parseWith
+    simp [hcf, parseLoop_mono _ _ _ _ _ _ hr k, Outcome.map]
+  · refine ⟨0, .tableError, ?_⟩
+    intro fuel _
+    unfold parseWith
+    have : (conflicts g (firstStr an.first) an.follow).isEmpty = false := by
+      cases hc : conflicts g (firstStr an.first) an.follow with
+      | nil => exact absurd hc hcf
+      | cons _ _ => rfl
+    simp [this]
+
+/-- **The property in one statement.**  For a valid grammar whose predictive table is conflict-free, and
+every token sequence `w`: `Parse` terminates, and it returns no error iff `w` is a sentence of `G`. -/
+theorem C12_decides_language (g : Grammar T N) (hv : validB g = true) (hnd : g.prods.Nodup)
+    (o₁ o₂ : IterOrder T N) (h₁ : o₁.Fair) (h₂ : o₂.Fair) (an : Analysis T N)
+    (han : analyse g o₁ o₂ = .ok an) (hcf : conflicts g (firstStr an.first) an.follow = [])
+    (w : List T) :
+    ∃ fuel₀ r, (∀ fuel, fuel ≥ fuel₀ → parseWith g an fuel w = .ok (.done r)) ∧
+      ((∃ E, r = .accept E) ↔ Language g w) := by
+  obtain ⟨fuel₀, r, hr⟩ := parse_terminates hv hnd h₁ h₂ han hcf w
+  have hall : ∀ fuel, fuel ≥ fuel₀ → parseWith g an fuel w = .ok (.done r) := by
+    intro fuel hf
+    obtain ⟨k, rfl⟩ : ∃ k, fuel = fuel₀ + k := ⟨fuel - fuel₀, by omega⟩
+    unfold parseWith
+    simp [hcf, parseLoop_mono _ _ _ _ _ _ hr k, Outcome.map]
+  refine ⟨fuel₀, r, hall, ?_⟩
+  constructor
+  · rintro ⟨E, rfl⟩
+    exact (C12_sound g an fuel₀ w E (hall fuel₀ (Nat.le_refl _))).2.1
+  · intro hw
+    obtain ⟨f₁, E, hE⟩ := C12_complete g hv hnd o₁ o₂ h₁ h₂ an han hcf w hw
+    have h1 := hall (max fuel₀ f₁) (Nat.le_max_left _ _)
+    have h2 := hE (max fuel₀ f₁) (Nat.le_max_right _ _)
+    rw [h1] at h2
+    injection h2 with h2
+    injection h2 with h2
+    exact ⟨E, h2⟩
+
+end
+
+/-! ## non-vacuity: `S → a A b`, `A → ε | a A` (terminals `0 = a`, `1 = b`; non-terminals `0 = S`, `1 = A`) -/
+
+def C12ex : Grammar Nat Nat :=
+  { terms := [0, 1], nonterms := [0, 1], start := 0,
+    prods := [⟨0, [.term 0, .nonterm 1, .term 1]⟩, ⟨1, []⟩, ⟨1, [.term 0, .nonterm 1]⟩] }
+
+example : validB C12ex = true := by decide
+example : C12ex.prods.Nodup := by decide
+
+/-- the table is conflict-free, `a a b` is accepted with the expected leftmost derivation, `a b b`
+(sentence + trailing token) and `a` (truncated sentence) are rejected -/
+example : ∃ an, analyse C12ex IterOrder.canon IterOrder.canon = .ok an ∧
+    conflicts C12ex (firstStr an.first) an.follow = [] ∧
+    (∃ E, parseWith C12ex an 50 [0, 0, 1] = .ok (.done (.accept E)) ∧
+      eventProds E = [⟨0, [.term 0, .nonterm 1, .term 1]⟩, ⟨1, [.term 0, .nonterm 1]⟩, ⟨1, []⟩] ∧
+      ∃ t, buildAST E (Tree.node 0 none []) = .ok t ∧ t.yield = [0, 0, 1]) ∧
+    parseWith C12ex an 50 [0, 1, 1] = .ok (.done (.reject .trailing)) ∧
+    parseWith C12ex an 50 [0] = .ok (.done (.reject .noEntry)) :=
+  ⟨_, rfl, by decide, ⟨_, rfl, by decide, _, rfl, by decide⟩, rfl, rfl⟩
+
+example : Language C12ex [0, 0, 1] := by
+  have hA0 : Derives C12ex [Sym.nonterm 1] [] := Derives.of_prod (p := ⟨1, []⟩) (by decide)
+  have hA1 : Derives C12ex [Sym.nonterm 1] [.term 0] := by
+    refine (Derives.of_prod (p := ⟨1, [.term 0, .nonterm 1]⟩) (by decide)).trans ?_
+    simpa using hA0.append_left [Sym.term 0]
+  refine (Derives.of_prod (p := ⟨0, [.term 0, .nonterm 1, .term 1]⟩) (by decide)).trans ?_
+  have := (hA1.append_left [Sym.term 0]).append_right [Sym.term 1]
+  simpa using this
+
+/-- D19 witness, today: `S → a` on `a a` is rejected because input is left when the stack is empty -/
+def C12d19 : Grammar Nat Nat :=
+  { terms := [0], nonterms := [0], start := 0, prods := [⟨0, [.term 0]⟩] }
+
+example : ∃ an, analyse C12d19 IterOrder.canon IterOrder.canon = .ok an ∧
+    (∃ E, parseWith C12d19 an 10 [0] = .ok (.done (.accept E))) ∧
+    parseWith C12d19 an 10 [0, 0] = .ok (.done (.reject .trailing)) :=
+  ⟨_, rfl, ⟨_, rfl⟩, rfl⟩
